@@ -42,7 +42,7 @@ CHECKS = {
             "generate() uses only randrange/randint with step 1 (otherwise the check reports a machinery error)", "DESIGN.md 6 C12"),
     "C13": ("TLA+ state machine with Lockstep/UpdateKeepsCounter action properties and a two-peer product; TLC-generated histories "
             "replayed on PacketSequencer; recorded random histories validated by a TLA+ trace spec",
-            "Sequencer.tla: NextSequence/SetStart; TLC explores all histories of runs up to 12 calls between up to 2 (3) updates over 5 "
+            "Sequencer.tla: NextSequence/SetStart; TLC explores all histories of runs up to 12 (24) calls between up to 2 updates over 8 "
             "starts of all four SequenceStart classes; every maximal history is replayed on the real class comparing each return value; "
             "3,000 (20,000) random histories up to 200 events (and a dozen of 600-2600) are recorded from the real class and validated by "
             "Trace_Sequencer; histories include user-defined starts whose value cannot be read yet (FailedRequest: a request that raises is no request); "
